@@ -124,7 +124,7 @@ class Sched(Part):
 
 class Focused(Part):
     name = "focused"
-    budget = {"quick": 8, "thorough": 500}
+    budget = {"quick": 8, "thorough": 60}
     min_per_shard = 1
 
     def setup(self, ctx):
